@@ -1934,7 +1934,7 @@ func lemmaForwardSession(raw *rawEnvelope) (e *Session, e3 *Session, accepted bo
 //@   modifies c.state, c.startRcv.fired, c.stopRcv.fired, c.transport.nRecv, c.transport.lastRecv, recvClock, c.transport.connected, c.transport.nSent, c.transport.lastSent, c.transport.nSentSes, c.transport.lastSes, c.transport.stage, c.transport.offerEnc, c.transport.offerComp, c.transport.offerSchemes, c.transport.confEnc, c.transport.confComp, c.transport.enc, c.transport.comp
 //@   loop 0 invariant 0 <= it_ && it_ <= len(compOpts) && compOptsMap != nil && subset(domof(compOptsMap), elems(compOpts))
 //@   loop 1 invariant 0 <= it_ && it_ <= len(encryptOpts) && encryptOptsMap != nil && subset(domof(encryptOptsMap), elems(encryptOpts)) && compOptsMap != nil && subset(domof(compOptsMap), elems(compOpts))
-//@   ensures [C09] @applied result == nil && c.state == SessionStateNegotiating ==> c.transport.stage == 2 && c.transport.nSentSes > 0 && c.transport.enc == c.transport.confEnc && c.transport.comp == c.transport.confComp && inset(elems(encryptOpts), c.transport.confEnc) && inset(elems(compOpts), c.transport.confComp)
+//@   ensures [C09,C10] @applied result == nil && c.state == SessionStateNegotiating ==> c.transport.stage == 2 && c.transport.nSentSes > 0 && c.transport.enc == c.transport.confEnc && c.transport.comp == c.transport.confComp && inset(elems(encryptOpts), c.transport.confEnc) && inset(elems(compOpts), c.transport.confComp)
 //@   ensures [C07] @failclosed result == nil && c.state != SessionStateNegotiating ==> c.state == SessionStateFailed && !c.transport.connected
 //@   ensures [C09] @offerexact result == nil && c.state == SessionStateNegotiating ==> c.transport.offerEnc == encryptOpts && c.transport.offerComp == compOpts
 //@   ensures srvInv(c) && step(c.state) >= step(old(c.state)) && c.startRcv.fired == old(c.startRcv.fired)
